@@ -18,6 +18,16 @@ ROW = TAbs("Row")
 def _append_data(ex, st, base, node, basenode):
     key = ast.unparse(basenode) + ".sink"
     if key not in st.env:
+        gs = st.env.get("ghost_sink")
+        if gs is not None and isinstance(gs.t, TMap) and gs.t.k.key() == base.t.key():
+            # writers as objects with identity: ghost_sink maps each writer to the rows that reached it
+            data = ex.ev(st, node.args[0])
+            cur = SV(gs.t.v, z3.Select(gs.z, base.z))
+            if not isinstance(data.t, TSeq) or data.t.elem != cur.t.elem:
+                raise Unsupported("append_data of %s" % data.t)
+            new = ex.seq_concat(st, cur, SV(cur.t, data.z))
+            st.env["ghost_sink"] = SV(gs.t, z3.Store(gs.z, base.z, new.z))
+            return SV(NONE)
         raise Unsupported("no ghost sink declared for %s" % ast.unparse(basenode))
     data = ex.ev(st, node.args[0])
     sink = st.env[key]
@@ -393,6 +403,16 @@ def _move(ex, st, node):
 # StopIteration when cursor == len (the cursor then stays where it is).
 VAL = TAbs("Val")
 STREAM = TAbs("Stream")
+
+
+@method("abs:Row", "get", stmt="row.get(column) = the value of that column of the row (None, a value like any other, "
+                               "when the column is absent)")
+def _row_get(ex, st, base, node, basenode):
+    c = ex.ev(st, node.args[0])
+    if c.t != STR or len(node.args) != 1:
+        raise Unsupported("Row.get(%s)" % c.t)
+    f = ex.uf("row_field", ROW.sort(), STR.sort(), VAL.sort())
+    return SV(VAL, f(base.z, c.z))
 
 _orig_subscript3 = Lib.subscript
 
